@@ -63,6 +63,8 @@ def e1_stored_read(ctx):
     tlc_mc(ctx, "StoredRead", "MC_StoredRead_%s.cfg" % ("quick" if ctx.quick else "thorough"))
     tlc_mc(ctx, "StoredRead", "MC_StoredRead_dev_SharedCache.cfg", workers=4, expect_violation="Correct")
     tlc_mc(ctx, "StoredRead", "MC_StoredRead_dev_LookAhead.cfg", workers=4, expect_violation="Correct")
+    if not ctx.quick:
+        tlc_mc(ctx, "StoredRead", "MC_StoredRead_dev_PutEarly.cfg", workers=4, expect_violation="Correct")
 
 
 def e2_stored_read(ctx, num):
